@@ -13,34 +13,36 @@ from .common import *
 
 
 def rule_r1(chk, facts):
-    chk.rule('C19-R1', 'asmlist.c MakeList(): the byte swap applied to the line buffer for the dump is undone on every '
-             'path (both DreheCodes() calls sit under the same condition on unmodified operands)', min_instances=1)
-    f = facts.func('asmlist.c', 'MakeList')
-    dre = sorted(((b, i, ln) for b, i, ln, n in f.calls('DreheCodes')), key=lambda x: x[2])
-    ok = len(dre) == 2
-    w = []
-    if ok:
-        first = dre[0]
-        conds = []
-        # conditions (&&-chain) guarding the first call
-        guards = []
-        for s_, d_, l in f.edges():
-            if l is not None and l[0] == 'T' and f.guarded(first[0], first[1], lambda l2, l=l: l2 is l)[0]:
-                guards.append(nocast(l[1]))
-        written = {strip(m[2]) for b2, i2, l2, m in f.nodes() if is_assign(m) or is_incdec(m)}
+    chk.rule('C19-R1', 'asmlist.c MakeList() and asmcode.c WriteBytes() (which runs before the line is listed): the byte '
+             'swap applied to the line buffer is undone on every path (both DreheCodes() calls sit under the same '
+             'condition on unmodified operands), so that the listing dumps the bytes in the order the code file holds',
+             min_instances=2)
+    for un, fn, what in (('asmlist.c', 'MakeList', 'the code file receives swapped bytes'),
+                         ('asmcode.c', 'WriteBytes', 'the listing (produced afterwards) shows the words of this line byte-swapped')):
+        f = facts.func(un, fn)
+        dre = sorted(((b, i, ln) for b, i, ln, n in f.calls('DreheCodes')), key=lambda x: x[2])
+        ok = len(dre) >= 2
+        w = []
+        if ok:
+            first = dre[0]
+            guards = []
+            for s_, d_, l in f.edges():
+                if l is not None and l[0] == 'T' and f.guarded(first[0], first[1], lambda l2, l=l: l2 is l)[0]:
+                    guards.append(nocast(l[1]))
+            written = {strip(m[2]) for b2, i2, l2, m in f.nodes() if is_assign(m) or is_incdec(m)}
 
-        def eok(s_, d_, l):
-            if l is not None and l[0] == 'F' and nocast(l[1]) in guards and \
-                    not any(mentions(l[1], lambda x, wv=wv: strip(x) == wv) for wv in written):
-                return False
-            return True
+            def eok(s_, d_, l):
+                if l is not None and l[0] == 'F' and nocast(l[1]) in guards and \
+                        not any(mentions(l[1], lambda x, wv=wv: strip(x) == wv) for wv in written):
+                    return False
+                return True
 
-        def is_dr(ex):
-            return any(m[0] == 'call' and callee_name(m) == 'DreheCodes' for m in walk_own(ex))
-        ok, w = f.must_pass(first[0], first[1], is_dr, edge_ok=eok)
-    chk.ob('C19-R1', 'asmlist.c:MakeList:swap-parity', ok, f.loc(),
-           'swap undone on every path' if ok else
-           'the line buffer stays byte-swapped after listing on path %s: the code file receives swapped bytes' % ' '.join(w[-5:]))
+            def is_dr(ex):
+                return any(m[0] == 'call' and callee_name(m) == 'DreheCodes' for m in walk_own(ex))
+            ok, w = f.must_pass(first[0], first[1], is_dr, edge_ok=eok)
+        chk.ob('C19-R1', '%s:%s:swap-parity' % (un, fn), ok, f.loc(),
+               'swap undone on every path' if ok else
+               'the line buffer stays byte-swapped on path %s: %s' % (' '.join(w[-5:]), what))
 
 
 def rule_r2(chk, facts):
